@@ -102,6 +102,12 @@ pub fn mm_sqrt_ps(a: __m128) -> __m128 {
     ])
 }
 
+// table-free over-approximation of _mm_sqrt_ps (stub set `sse_hv`, totality obligations)
+pub fn hv_sqrt_ps(a: __m128) -> __m128 {
+    let a = f(a);
+    m([crate::uf::hv_sqrt_f32(a[0]), crate::uf::hv_sqrt_f32(a[1]), crate::uf::hv_sqrt_f32(a[2]), crate::uf::hv_sqrt_f32(a[3])])
+}
+
 // ---- uninterpreted versions of the four arithmetic intrinsics (stub set `sse_uf`, forwarding lemmas) ----
 macro_rules! lanewise_uf {
     ($name:ident, $f:path) => {
@@ -115,6 +121,10 @@ lanewise_uf!(uf_add_ps, crate::uf::uadd_f32);
 lanewise_uf!(uf_sub_ps, crate::uf::usub_f32);
 lanewise_uf!(uf_mul_ps, crate::uf::umul_f32);
 lanewise_uf!(uf_div_ps, crate::uf::udiv_f32);
+pub fn uf_add_ss(a: __m128, b: __m128) -> __m128 {
+    let (a, b) = (f(a), f(b));
+    m([crate::uf::uadd_f32(a[0], b[0]), a[1], a[2], a[3]])
+}
 
 // uninterpreted stand-in for glam::sse2::m128_floor (forwarding lemma of the SSE2 `%`)
 pub unsafe fn uf_m128_floor(a: __m128) -> __m128 {
